@@ -6,18 +6,9 @@
 //!
 //! The orchestration (build, sharding, merging, evidence, known findings) is done by /verif/check.
 
-mod evalcmp;
-mod gen;
-mod known;
-mod model;
-mod monitors;
-mod out;
-mod render;
-mod rng;
-mod shrink;
-mod stream;
 
-use out::{Args, Report};
+use ohv::out::{Args, Report};
+use ohv::{monitors, out};
 
 fn parse_args() -> Args {
     let mut it = std::env::args().skip(1);
